@@ -87,6 +87,19 @@ def check(program, ex):
                     v.append(f"second started() call by {m} was accepted although start() had "
                              f"delivered the first value")
         elif out[0] == "cancel":
+            if oks:
+                # once started() has delivered a value, start() returns it: a cancellation can
+                # only replace it if it was requested before that call
+                a = oks[0][0]
+                earlier = [e for e in log[:a] if
+                           (e[2] == "envrun" and e[3].split(":")[0] in ("cancel", "hcancel", "ncancel"))
+                           or (e[2] == "x" and e[5] == "cancel")
+                           or (e[2] == "te" and e[4][0] != "ok")
+                           or (e[2] == "gb" and e[5][0] != "ok")]
+                if not earlier:
+                    v.append(f"start({m}) raised a cancellation although the child had already "
+                             f"called started({oks[0][1]!r}) before anything was cancelled "
+                             f"(the value was lost)")
             if "tb" in t and ("te" not in t or t["te"] > s["e"]):
                 v.append(f"start({m}) re-raised the caller's cancellation before the child had "
                          f"terminated")
